@@ -26,6 +26,8 @@ pub struct Ctx {
     pub max_secs: u64,
     /// values/keys own heap blocks (sanitizer variants)
     pub heapy: bool,
+    /// deal the directed scripts round-robin to the shards instead of running all on each
+    pub spread_directed: bool,
     pub variant: String,
 }
 
@@ -278,8 +280,13 @@ pub fn engine_suite(ctx: &Ctx) -> ShardOut {
 
     // ---- 1. directed scripts (every shard runs them: they are tiny and give the must-see
     //         classes independent of luck)
+    let mut dir_idx = 0u64;
     for &kind in &kinds {
         for (cfg, ops, name) in directed(kind) {
+            dir_idx += 1;
+            if ctx.spread_directed && dir_idx % ctx.nshards != ctx.shard % ctx.nshards {
+                continue;
+            }
             let uni: Vec<u32> = (0..10).collect();
             for kt in [KeyType::Tracked, KeyType::Str] {
                 if prop == "C04" && kt == KeyType::Str {
